@@ -901,10 +901,10 @@ def run_treebuild(chk: core.Check) -> None:
         wd = os.path.join(chk.scratch, 'tb_' + name)
         c = dict(consts, Emit=True)
         cfg = tla.cfg_text(c, spec='Spec', invariants=['TypeOK', 'PopSafe', 'GapSafe', 'Refinement', 'DefOK'])
-        r = tla.require_ok(tla.run_tlc('TreeBuild', cfg, wd, workers=min(12, PROCS), coverage=True), f'TreeBuild/{name}')
+        r = tla.require_ok(tla.run_tlc('TreeBuild', cfg, wd, workers=min(12, PROCS)), f'TreeBuild/{name}')
         chk.model(f'TreeBuild/{name}', r)
-        for a in TB_ACTIONS:
-            fired[a] += r.coverage.get(a, 0)
+        m = re.search(r'Finished computing initial states: (\d+) distinct state', r.output)
+        n_init = int(m.group(1)) if m else -1
         chk.add('transitions', r.generated)
         t0 = time.time()
         lines = [ln for ln in r.output.splitlines() if ln.startswith('"<<\\"c02\\"')]
@@ -928,10 +928,22 @@ def run_treebuild(chk: core.Check) -> None:
                     chk.note(nt)
             for feat, cnt, case, exp, obs in fails:
                 report(chk, feat, cnt, case, exp, obs)
-        if nvec != len(lines):
-            raise tla.MachineryError(f'TreeBuild/{name}: {len(lines)} vectors printed, {nvec} parsed')
+        if nvec != len(lines) or nvec != n_init:
+            # every behaviour must run to Report: one terminal vector per initial state, else the model is vacuous
+            raise tla.MachineryError(f'TreeBuild/{name}: {n_init} initial states, {len(lines)} vectors printed, {nvec} parsed')
         print(f'  TreeBuild/{name}: states={r.distinct} behaviours={nvec} tlc={r.wall_s:.1f}s replay={time.time()-t0:.1f}s',
               flush=True)
+    # anti-vacuity: every action of the step machine fires (coverage run on a small configuration with all
+    # features; the big runs are covered by "one terminal vector per initial state" above)
+    mini = dict(MaxItems=3, ItemKinds={"e", "c"}, TextOpts={True}, TailOpts={True}, AttrCounts={1}, DeclOpts={fs({"p"})},
+                Variants={"etree", "lxml"}, RootArgs={"elem", "tree"}, Fragments={"none", "false"}, NsArgs={E}, MaxSibs=1,
+                Emit=False)
+    r = tla.require_ok(tla.run_tlc('TreeBuild', tla.cfg_text(mini, spec='Spec', invariants=['TypeOK']),
+                                   os.path.join(chk.scratch, 'tb_cov'), workers=min(4, PROCS), coverage=True),
+                       'TreeBuild/coverage')
+    chk.model('TreeBuild/coverage', r)
+    for a in TB_ACTIONS:
+        fired[a] += r.coverage.get(a, 0)
     dead = [a for a, c in fired.items() if c == 0]
     if dead:
         raise tla.MachineryError(f'TreeBuild actions never fired in any configuration (vacuous): {dead}')
